@@ -11,6 +11,7 @@ CONSTANTS
   MaxPeer = 5
   MaxPush = 3
   Faults = {}
+  MaxFaults = 1
   RespShapes <- RS_sub1
   Abandon = FALSE
   MaxArr = 2
